@@ -282,6 +282,8 @@ class Ctx(object):
         for r in p['inconclusive']:
             self.flag_inconclusive(r)
         for k, v in p['extra'].items():
+            if k == 'line_coverage':
+                continue
             if isinstance(v, dict) and isinstance(self.extra.get(k), dict):
                 for kk, vv in v.items():
                     if isinstance(vv, (int, float)) and isinstance(self.extra[k].get(kk), (int, float)):
@@ -294,6 +296,17 @@ class Ctx(object):
                         self.extra[k].append(it)
             else:
                 self.extra.setdefault(k, v)
+        lc = p['extra'].get('line_coverage')
+        if isinstance(lc, dict):
+            mine = self.extra.setdefault('line_coverage', {})
+            for lab, v in lc.items():
+                m = mine.get(lab)
+                if m is None or m is v:
+                    mine[lab] = dict(v)
+                else:
+                    ex = sorted(set(m.get('executed', [])) | set(v.get('executed', [])))
+                    nv = sorted(set(m.get('never_executed', [])) & set(v.get('never_executed', [])))
+                    mine[lab] = {'statement_lines': v.get('statement_lines'), 'executed': ex, 'never_executed': nv}
         self.rule = self.rule or p['rule']
         for a in p['assumptions']:
             if a not in self.assumptions:
